@@ -973,10 +973,10 @@ func (area) Run(c *core.Ctx) error {
 		if !c.Want(i) {
 			continue
 		}
-		if timeouts >= 3 {
+		if timeouts >= 4 {
 			// the implementation stopped following the protocol (each such case costs seconds and
 			// leaves goroutines behind); three recorded failures are enough to decide
-			c.Note("aborted after 3 timeouts")
+			c.Note("aborted after 4 cases in which the implementation stopped following the protocol")
 			break
 		}
 		rng := c.Rng(i)
@@ -987,7 +987,7 @@ func (area) Run(c *core.Ctx) error {
 			c.Branch("fixed-witness")
 			r, used := runPipeline(c, pool, root, rng, f.sched)
 			r.oracle(c, root, used, f.witness)
-			if r.o.timeout != "" {
+			if r.o.timeout != "" || len(r.o.vanished) > 0 {
 				timeouts++
 			}
 			c.NonTrivial()
@@ -1014,7 +1014,7 @@ func (area) Run(c *core.Ctx) error {
 		c.Branch([]string{"gen-no-panic", "gen-recoverable-panics", "gen-any-panic", "gen-lindb-shape", "gen-rejected-tasks"}[kind])
 		r, used := runPipeline(c, pool, root, rng, nil)
 		r.oracle(c, root, used, "")
-		if r.o.timeout != "" {
+		if r.o.timeout != "" || len(r.o.vanished) > 0 {
 			timeouts++
 		}
 		// distribution
